@@ -616,7 +616,7 @@ func c02execMulti(line string) Result {
 					vs = append(vs, m.k.encIn(v))
 				}
 				viol = fmt.Sprintf("%s | %s: gomacro gives [%s], compiled Go gives [%s] (X Y Z I A0 A1 A2 Ma Mb Mc len(M) log)", cacheKey, strings.Join(vs, ","), got, w)
-				if gi, wi := strings.Index(got, "P:"), strings.Index(w, "P:"); gi >= 0 && wi >= 0 && got[gi:] == w[wi:] && strings.HasPrefix(got[gi:], "P:index") {
+				if strings.Contains(got, "P:index") && strings.Contains(w, "P:index") {
 					// both panic with an index out of range, but at different moments
 					key = cls + "-" + m.stor + "-index-panic-before-operands"
 				}
